@@ -15,6 +15,8 @@ def derived_graphs(conf, G):
     """(name, thunk) for every constructor the statement lists"""
     o = U.FLAVOURS[conf['flavour']]['origin']
     rng = list(range(o - 1, o + conf['w'] + 1))
+    if conf['w'] > 6:
+        rng = rng[::3]        # wide-window universe (LONG): every third instant as a window bound
     out = []
     for a in rng:
         out.append(('time_slice(%d)' % a, lambda a=a: G.time_slice(a)))
@@ -53,6 +55,12 @@ def state_fn(conf, hist, G, M):
     nder = 0
     seen = set()
     for name, thunk in derived_graphs(conf, G):
+        # the window fan-out (~30 slices per state) only on states of depth <= 2; deeper states still get the
+        # conversions and the three I/O round trips (C06 checks every slice of its own universes for well-formedness)
+        if name.startswith('time_slice') and len(hist) > 2:
+            continue
+        if len(hist) > 4:
+            break
         try:
             H = thunk()
         except Exception as ex:
